@@ -170,7 +170,7 @@ def _run_job(job: T.Dict[str, T.Any]) -> T.Dict[str, T.Any]:
 
 def pick_family(fam: T.Dict[str, T.Any], rnd: random.Random, n: int, exhaustive: bool) -> T.List[T.Dict[str, T.Any]]:
     """Seeded sample of the exported family: half of it projects the rule book says must be rejected."""
-    f3 = [dict(p, family='F3') for p in fam['f3']]
+    f3 = [dict(p, family='F3') for p in fam['f3']] + [dict(p, family='F4') for p in fam['f4']]
     allp = [dict(p, family='F1') for p in fam['f1']] + [dict(p, family='F2') for p in fam['f2']]
     if exhaustive or n >= len(allp):
         return allp + f3
@@ -246,7 +246,7 @@ def main(chk: Check) -> None:
         bfut = [ex.submit(_run_job, j) for j in bjobs]
         fam, graphs = model_check(chk, quick)
         stages['model_check'] = round(time.time() - t0, 1)
-        chk.extra['family_sizes'] = {'F1': len(fam['f1']), 'F2': len(fam['f2']), 'F3': len(fam['f3']),
+        chk.extra['family_sizes'] = {'F1': len(fam['f1']), 'F2': len(fam['f2']), 'F3': len(fam['f3']), 'F4': len(fam['f4']),
                                      'writer_graphs': len(graphs)}
         if n_writer < len(graphs):
             graphs = rnd.sample(graphs, n_writer)
